@@ -10,6 +10,9 @@ func init() {
 	addRun("C05", c05Rule, robC05Run)
 	addRun("C05", "targeted whole files: Writer output that ENDS inside a cross-reference table (every cut position in the first two entries), right after an object header or inside the header line; same walk and oracle as the mutation run", robC05xRun)
 	addRun("C05", "GetFilters on /Filter arrays of 1..40 names: more than maxFilterChainLength (8, documented cap) must be refused", robFilterChainRun)
+	addRun("C05", "EXHAUSTIVE token sequences up to length 8 (array body) / 6 (dictionary value) over {integer, R, name} read by ReadObject (lines 'ROB scan … o'), compared with Model/Scan; a panic is a violation", robTokenSeqRun)
+	addRun("C05", "linked structures x graph shapes x walkers: page tree, name tree, number tree and outline rendered from 12 graph families (chain, child listed twice/thrice, child+grandchild, lattice, self loop, 2-cycle, back edge, fan, random DAG, random graph) of depth 1..40 (thorough ..300); pagetree.Iterator/FindPages, nametree and numtree FromFile.All/Lookup/ExtractInMemory/Size, outline.Decode run over a metering Getter; more than 64*objects+256 object fetches, a panic or a hang is a violation", robC05wRun)
+	addReplay("C05", "c05w", replayC05w)
 	addReplay("C05", "c05", replayC05)
 	addReplay("C05", "filterchain", replayFilterChain)
 	addReplay("C05", "scan", replayScan)
